@@ -465,8 +465,14 @@ fn ascii_text<const N: usize>(bytes: &[u8; N], len: usize) -> &str {
 }
 
 fn judge(text: &str, l: &mut Lexer, kind: TokenKind) {
+    judge_at(text, l, kind, 0)
+}
+
+/// `text` is the input from the start of the token; the lexer's cursor is `p0` bytes ahead of it
+fn judge_at(text: &str, l: &mut Lexer, kind: TokenKind, p0: usize) {
     let t = text.as_bytes();
-    let end = l.s.cursor();
+    kani::assume(l.s.cursor() >= p0);
+    let end = l.s.cursor() - p0;
     // --- L0 contract of the lexer (C01/C02/C17)
     assert!(end <= t.len(), "cursor inside the text");
     assert!(text.is_char_boundary(end), "cursor on a char boundary");
@@ -614,76 +620,84 @@ fn c14c01c02_lexer_dispatch() {
 // entered exactly as the dispatch harness proved it is entered.
 
 fn routine_step<const N: usize>(class: Class) {
+    // the token starts at an ARBITRARY offset p0 (0..=2) after arbitrary text: a routine must
+    // not depend on what precedes its token (`Lexer` keeps the whole text and can look back)
     let bytes: [u8; N] = kani::any();
     let len: usize = kani::any();
-    let text = ascii_text(&bytes, len);
-    let t = text.as_bytes();
-    kani::assume(len >= 1);
-    let mut l = Lexer::new(text);
+    let whole = ascii_text(&bytes, len);
+    let p0: usize = kani::any();
+    kani::assume(p0 <= 2 && p0 < len);
+    let t = &whole.as_bytes()[p0..];
+    let text = unsafe { std::str::from_utf8_unchecked(t) };
+    let mut l = Lexer::new(whole);
     let kind = match class {
         Class::Ws => {
             kani::assume(t[0] == b' ' || (t[0] >= 0x09 && t[0] <= 0x0d));
-            l.s.jump(1);
+            l.s.jump(p0 + 1);
             l.whitespace()
         }
         Class::LineComment => {
-            kani::assume(len >= 2 && t[0] == b'/' && t[1] == b'/');
-            l.s.jump(2);
+            kani::assume(t.len() >= 2 && t[0] == b'/' && t[1] == b'/');
+            l.s.jump(p0 + 2);
             l.line_comment()
         }
         Class::BlockComment => {
-            kani::assume(len >= 2 && t[0] == b'/' && t[1] == b'*');
-            l.s.jump(2);
+            kani::assume(t.len() >= 2 && t[0] == b'/' && t[1] == b'*');
+            l.s.jump(p0 + 2);
             l.block_comment()
         }
         Class::Number => {
             kani::assume(is_digit(t[0]) || t[0] == b'+' || t[0] == b'-');
             // as dispatched: not a digit-leading identifier
             kani::assume(expected_dispatch(t).0 == R::Number);
-            l.s.jump(1);
-            l.number(0, t[0] as char)
+            l.s.jump(p0 + 1);
+            l.number(p0, t[0] as char)
         }
         Class::Ident => {
             kani::assume(is_ualpha(t[0]) || is_digit(t[0]));
             kani::assume(expected_dispatch(t).0 == R::Identifier);
-            l.s.jump(1);
-            l.identifier(0)
+            l.s.jump(p0 + 1);
+            l.identifier(p0)
         }
         Class::Str => {
             kani::assume(t[0] == b'"');
-            l.s.jump(1);
+            l.s.jump(p0 + 1);
             l.string()
         }
         Class::VarName => {
             kani::assume(t[0] == b'$');
-            l.s.jump(1);
+            l.s.jump(p0 + 1);
             l.var_name()
         }
         Class::Code => {
-            kani::assume(len >= 2 && t[0] == b'[' && t[1] == b'{');
-            l.s.jump(2);
+            kani::assume(t.len() >= 2 && t[0] == b'[' && t[1] == b'{');
+            l.s.jump(p0 + 2);
             l.code_fragment()
         }
         Class::Bang => {
             kani::assume(t[0] == b'!');
-            l.s.jump(1);
+            l.s.jump(p0 + 1);
             l.bangoperator()
         }
         Class::Hash => {
             kani::assume(t[0] == b'#');
-            l.s.jump(1);
+            l.s.jump(p0 + 1);
             l.preprocessor()
         }
-        Class::Any => l.next_token(),
+        Class::Any => {
+            l.s.jump(p0);
+            l.next_token()
+        }
     };
-    judge(text, &mut l, kind);
+    assert!(l.s.cursor() >= p0 + 1, "C01: the cursor never moves back to or before the start of the token");
+    judge_at(text, &mut l, kind, p0);
     if class == Class::Hash {
         // the bounded jump-back lands one byte after the '#', never before it
-        assert!(l.s.cursor() >= 1);
         if kind == K::Paste {
-            assert!(l.s.cursor() == 1);
+            assert!(l.s.cursor() == p0 + 1);
         }
     }
+    kani::cover!(p0 == 2, "W: token preceded by two bytes of other text");
 }
 
 macro_rules! routine_harness {
@@ -698,15 +712,15 @@ macro_rules! routine_harness {
 }
 
 // quick tier: 6 bytes
-routine_harness!(c14c01c02_lex_whitespace_q, Class::Ws, 6, 8);
-routine_harness!(c14c01c02_lex_line_comment_q, Class::LineComment, 6, 8);
-routine_harness!(c14c01c02_lex_block_comment_q, Class::BlockComment, 8, 10);
-routine_harness!(c14c01c02_lex_number_q, Class::Number, 6, 8);
-routine_harness!(c14c01c02_lex_identifier_q, Class::Ident, 6, 12);
-routine_harness!(c14c01c02_lex_string_q, Class::Str, 6, 8);
-routine_harness!(c14c01c02_lex_var_name_q, Class::VarName, 6, 8);
-routine_harness!(c14c01c02_lex_code_q, Class::Code, 7, 9);
-routine_harness!(c14c01c02_lex_hash_q, Class::Hash, 8, 10);
+routine_harness!(c14c01c02_lex_whitespace_q, Class::Ws, 8, 10);
+routine_harness!(c14c01c02_lex_line_comment_q, Class::LineComment, 8, 10);
+routine_harness!(c14c01c02_lex_block_comment_q, Class::BlockComment, 10, 12);
+routine_harness!(c14c01c02_lex_number_q, Class::Number, 8, 10);
+routine_harness!(c14c01c02_lex_identifier_q, Class::Ident, 8, 14);
+routine_harness!(c14c01c02_lex_string_q, Class::Str, 8, 10);
+routine_harness!(c14c01c02_lex_var_name_q, Class::VarName, 8, 10);
+routine_harness!(c14c01c02_lex_code_q, Class::Code, 9, 11);
+routine_harness!(c14c01c02_lex_hash_q, Class::Hash, 10, 12);
 
 // ---------------------------------------------------------------------------
 // long words over a restricted alphabet: every keyword / bang operator name fits
@@ -764,26 +778,26 @@ fn c14c20_lex_keyword_words_q() {
 
 // fallback tier: 4 bytes (5 for two-byte openers) -- run only when the 6-byte query of an edited tree
 // exceeds the memory/time cap, so that short witnesses are still found
-routine_harness!(c14c01c02_lex_whitespace_s, Class::Ws, 4, 6);
-routine_harness!(c14c01c02_lex_line_comment_s, Class::LineComment, 5, 7);
-routine_harness!(c14c01c02_lex_block_comment_s, Class::BlockComment, 5, 7);
-routine_harness!(c14c01c02_lex_number_s, Class::Number, 4, 6);
-routine_harness!(c14c01c02_lex_identifier_s, Class::Ident, 4, 12);
-routine_harness!(c14c01c02_lex_string_s, Class::Str, 4, 6);
-routine_harness!(c14c01c02_lex_var_name_s, Class::VarName, 4, 6);
-routine_harness!(c14c01c02_lex_code_s, Class::Code, 5, 7);
-routine_harness!(c14c01c02_lex_hash_s, Class::Hash, 5, 7);
+routine_harness!(c14c01c02_lex_whitespace_s, Class::Ws, 6, 8);
+routine_harness!(c14c01c02_lex_line_comment_s, Class::LineComment, 7, 9);
+routine_harness!(c14c01c02_lex_block_comment_s, Class::BlockComment, 7, 9);
+routine_harness!(c14c01c02_lex_number_s, Class::Number, 6, 8);
+routine_harness!(c14c01c02_lex_identifier_s, Class::Ident, 6, 14);
+routine_harness!(c14c01c02_lex_string_s, Class::Str, 6, 8);
+routine_harness!(c14c01c02_lex_var_name_s, Class::VarName, 6, 8);
+routine_harness!(c14c01c02_lex_code_s, Class::Code, 7, 9);
+routine_harness!(c14c01c02_lex_hash_s, Class::Hash, 7, 9);
 
 // thorough tier: 8 bytes (block comments / # : 10)
-routine_harness!(c14c01c02_lex_whitespace_t, Class::Ws, 8, 10);
-routine_harness!(c14c01c02_lex_line_comment_t, Class::LineComment, 8, 10);
-routine_harness!(c14c01c02_lex_block_comment_t, Class::BlockComment, 10, 12);
-routine_harness!(c14c01c02_lex_number_t, Class::Number, 7, 9);
-routine_harness!(c14c01c02_lex_identifier_t, Class::Ident, 8, 12);
-routine_harness!(c14c01c02_lex_string_t, Class::Str, 8, 10);
-routine_harness!(c14c01c02_lex_var_name_t, Class::VarName, 8, 10);
-routine_harness!(c14c01c02_lex_code_t, Class::Code, 9, 11);
-routine_harness!(c14c01c02_lex_hash_t, Class::Hash, 10, 12);
+routine_harness!(c14c01c02_lex_whitespace_t, Class::Ws, 10, 12);
+routine_harness!(c14c01c02_lex_line_comment_t, Class::LineComment, 10, 12);
+routine_harness!(c14c01c02_lex_block_comment_t, Class::BlockComment, 12, 14);
+routine_harness!(c14c01c02_lex_number_t, Class::Number, 9, 11);
+routine_harness!(c14c01c02_lex_identifier_t, Class::Ident, 10, 14);
+routine_harness!(c14c01c02_lex_string_t, Class::Str, 10, 12);
+routine_harness!(c14c01c02_lex_var_name_t, Class::VarName, 10, 12);
+routine_harness!(c14c01c02_lex_code_t, Class::Code, 11, 13);
+routine_harness!(c14c01c02_lex_hash_t, Class::Hash, 12, 14);
 
 // ---------------------------------------------------------------------------
 // C20: the completion vocabulary (tables generated at run time from the real
